@@ -27,6 +27,16 @@ type MergeCase struct {
 	// right before that merge (sorted ascending, indices modulo the file count):
 	// the limit sits exactly at, or one byte under, what two real files add up to
 	FileRel [][3]int `json:"filerel,omitempty"`
+	// Prelude[i] = {kind, n} (kind "" = none): before merge i is observed, the
+	// same engine instance runs one Merge during which the n-th store call of
+	// that kind fails once. Whatever that call returns, the observed Merge that
+	// follows on the same engine is judged like any other.
+	Prelude []MergePrelude `json:"prelude,omitempty"`
+}
+
+type MergePrelude struct {
+	Kind string `json:"kind,omitempty"`
+	N    int    `json:"n,omitempty"`
 }
 
 func genMergeCase() *rapid.Generator[MergeCase] {
@@ -74,6 +84,13 @@ func genMergeCase() *rapid.Generator[MergeCase] {
 				rel = append(rel, [3]int{rapid.IntRange(0, 5).Draw(t, "rela"), rapid.IntRange(0, 5).Draw(t, "relb"), pick(t, "reldelta", []int{-1, 0, -1, 0, 40})})
 			}
 		}
+		var prel []MergePrelude
+		if chance(t, "preludes", 30) {
+			for range cfgs {
+				pk := pick(t, "prelkind", []string{"", "OpenFile", "OpenFile", "Read", "Write", "Write", "Close", "Update"})
+				prel = append(prel, MergePrelude{Kind: pk, N: rapid.IntRange(0, 9).Draw(t, "preln")})
+			}
+		}
 		rows := simulateRows(h)
 		pools := buildPools(rows)
 		nq := rapid.IntRange(1, 8).Draw(t, "nqueries")
@@ -86,7 +103,7 @@ func genMergeCase() *rapid.Generator[MergeCase] {
 			}
 			qs[i] = drawQuery(t, qp, true)
 		}
-		return MergeCase{Hist: h, MergeCfgs: cfgs, Queries: qs, FileRel: rel}
+		return MergeCase{Hist: h, MergeCfgs: cfgs, Queries: qs, FileRel: rel, Prelude: prel}
 	})
 }
 
@@ -103,8 +120,29 @@ func execMergeCase(c MergeCase) (*World, []mergeObsFull, *Violation) {
 		return nil, nil, violf("history failed on healthy stores: %v", err)
 	}
 	var obs []mergeObsFull
+	var preEng *bs.BloomSearchEngine
+	var preTr *Trace
 	for mi, cfg := range c.MergeCfgs {
 		tr := NewTrace(w.Data, w.Meta)
+		preEng = nil
+		if mi < len(c.Prelude) && c.Prelude[mi].Kind != "" && !(mi < len(c.FileRel)) {
+			pe, err := w.NewEngine(cfg, tr, tr)
+			if err != nil {
+				w.Close()
+				return nil, nil, violf("engine construction failed: %v", err)
+			}
+			ctl := NewStoreCtl(StoreScript{FailKind: []string{c.Prelude[mi].Kind}, FailN: []int{c.Prelude[mi].N}})
+			tr.Before = ctl.Hook
+			_, perr := pe.Merge(context.Background())
+			tr.Before = nil
+			if ctl.FiredCount() > 0 {
+				Ev.Class("merge:preceded-by-a-faulted-merge-on-the-same-engine")
+				if perr != nil {
+					Ev.Class("merge:preceded-by-a-failed-merge-on-the-same-engine")
+				}
+			}
+			preEng, preTr = pe, tr
+		}
 		before, err := ReadWorld(w.Data, w.Meta)
 		if err != nil {
 			w.Close()
@@ -130,8 +168,10 @@ func execMergeCase(c MergeCase) (*World, []mergeObsFull, *Violation) {
 				Ev.Class("merge:MaxFileSize-set-at-a-real-pair-boundary")
 			}
 		}
-		eng, err := w.NewEngine(cfg, tr, tr)
-		if err != nil {
+		var eng *bs.BloomSearchEngine
+		if preEng != nil {
+			eng, tr = preEng, preTr
+		} else if eng, err = w.NewEngine(cfg, tr, tr); err != nil {
 			w.Close()
 			return nil, nil, violf("engine construction failed: %v", err)
 		}
